@@ -91,7 +91,16 @@ def strip_lean_comments(src: str) -> str:
 
 
 def obligations() -> dict:
-    return json.loads((LEAN / "obligations.json").read_text())
+    """lean/obligations.json plus every fragment lean/obligations.d/*.json (one per property slice)."""
+    obl = json.loads((LEAN / "obligations.json").read_text())
+    d = LEAN / "obligations.d"
+    if d.is_dir():
+        for f in sorted(d.glob("*.json")):
+            for k, v in json.loads(f.read_text()).items():
+                e = obl.setdefault(k, {"modules": [], "theorems": []})
+                e["modules"] += [m for m in v.get("modules", []) if m not in e["modules"]]
+                e["theorems"] += [t for t in v.get("theorems", []) if t not in e["theorems"]]
+    return obl
 
 
 class BuildStatus:
@@ -230,9 +239,14 @@ class Driver:
 
 def known_findings() -> list[dict]:
     p = ROOT / "known_findings.json"
-    if not p.exists():
-        return []
-    return json.loads(p.read_text()).get("open", [])
+    out = []
+    if p.exists():
+        out = list(json.loads(p.read_text()).get("open", []))
+    d = ROOT / "known_findings.d"  # fragments of slices under construction (folded into the file on merge)
+    if d.is_dir():
+        for f in sorted(d.glob("*.json")):
+            out += json.loads(f.read_text()).get("open", [])
+    return out
 
 
 # --------------------------------------------------------------------------- context
